@@ -30,6 +30,16 @@ PROPS = {
         explanation='theorems over the regenerated tables vs. the hand-transcribed registry; the translator is validated by comparing every table answer with the binary',
         trusted=['spec/registry.json transcribed by hand from the IANA CoRE Parameters registries and the RFCs'],
     ),
+    'C07': dict(
+        lean='CoapLite.Props.C07', domains=['RESP'],
+        rule='4 versions x 4 types x token length 0..8 x message ids {0,1,255,256,0x1234,65534,65535} (every id in the thorough tier) with arbitrary code/options/payload; all 256 first header bytes with consistent and inconsistent token lengths; random ids; apply_from_error over every code byte and no code x 4 types x pre-set reply options. Every case is non-trivial (reaches CoapResponse::new / apply_from_error); distinct = distinct protocol lines.',
+        explanation='Response.new / applyFromError proved for all header bytes, ids and tokens (the 65536-id product is covered by a universally quantified theorem); responseTypeFor regenerated from source',
+    ),
+    'C19': dict(
+        lean='CoapLite.Props.C19', domains=['ACC', 'TBL'], line_filter=r'(ACC |TBL (method|status) )',
+        rule='all 256 code bytes through set_method/set_status and the getter tables; every named content format (set, set twice, set after raw add) and raw bytes of length 0..3; observe flag set/get and raw Observe bytes of length 0..6; every path string over {/, a, ., e-acute} up to length 5 (6 thorough) with prior Uri-Path state varied, random paths, non-UTF-8 raw segments; random messages through both coap-message trait versions (view and set_from_message). Every case is non-trivial; distinct = distinct protocol lines.',
+        explanation='accessor laws proved over the model; getMethodTable/getStatusTable regenerated from the source',
+    ),
     'C13': dict(
         lean='CoapLite.Props.C13', domains=['BV'],
         rule='exhaustive num x more x szx for encode/decode; all byte strings of length <= 2 and boundary-directed 3-byte strings for decode; construction over boundary block numbers x every size 0..8200 and all powers of two; non-trivial = reaches past the first guard (valid size/num, length <= 3)',
